@@ -15,6 +15,21 @@ TEXT = {
  "C03": ("sanitizers (ASan + UBSan bounds) on generated code with exactly sized buffers + CSR/cross-layout monitor",
          "All four renderings of one Network are executed under AddressSanitizer/UBSan against shim buffers of exactly the declared sizes; CSR arrays as filled by the generated code are validated and compared bit for bit with dense/ublas assignments; jac_pattern.dat is compared with the stored entries.",
          "red-zone sanitizers miss far out-of-bounds accesses (>1 KiB past a heap buffer); bit-exactness relies on -O0 -ffp-contract=off"),
+ "C07": ("runtime monitoring: parser outputs vs abstract reactions encoded by independent encoders",
+         "Files in all six formats are generated from abstract reactions by encoders written from the format descriptions and read by the real Network; every parsed field of every reaction and the number/order of reactions are compared with the abstract case, with blank/whitespace/comment/directive lines, CRLF and missing final newline interleaved.",
+         "encoders and code->type tables follow the published format descriptions"),
+ "C08": ("runtime monitoring: Species attributes vs the composition each name was rendered from",
+         "Names are rendered from compositions under three naming configurations (default lists, upper-case list with replacement, custom prefix/grain symbol); element counts, charge, phase, gas name, mass number, is_atom and rewritten name are compared; garbage names must raise.",
+         "ambiguous renderings are excluded by an independent tokenizer; mass numbers from an independent table"),
+ "C14": ("icontract class invariant on the real Network + offline reference-model monitor over edit histories",
+         "Random edit histories run against a Network that carries an icontract invariant (evaluated after every public call); after each step reaction identity/order, species, sources/sinks, where_species and indices are compared with a reference model that recomputes everything from surviving reactions; the same edits are driven through `naunet extend`. Thorough tier re-runs the repository tests with the invariant on.",
+         "reaction identity by object id; remove(instance) specified as removing the whole equality class"),
+ "C15": ("runtime monitoring: duplicate reports vs O(n^2) pairwise reference",
+         "Reaction lists with planted equivalence classes (permutations, repeated species, window/type-only differences, mixed spellings) are checked in all four modes against a pairwise reference; removal must leave one representative per class.",
+         "string modes compare names, default/brief compare chemical identity; UNKNOWN-typed reactions excluded (non-transitive equality)"),
+ "C19": ("fault injection: scripted mock integrator driving the real generated Solve/HandleError under ASan",
+         "The generated naunet.cpp is linked with a scripted mock CVODE/Odeint whose solution is linear in t, so integrated time is read off the state; integrator outcomes (recoverable, reset, unrecoverable flags, warnings, failing re-initialisation, step-budget overruns, integrator exceptions) are enumerated at every call position of the recovery ladder with partial progress; success must mean exactly dt integrated, failure must log the initial state.",
+         "mock follows the documented CVODE/Odeint return protocol incl. CV_TOO_CLOSE/ILL_INPUT input checks; exhaustive only to the stated script depth"),
  "C04": ("runtime monitoring: conservation monitor over compiled ydot with injected rate coefficients",
          "Networks balanced by construction are rendered and executed; rate coefficients of arbitrary sign/magnitude are injected at the EvalRates seam and count-weighted sums of the compiled derivatives are checked to vanish relative to the sum of absolute terms; GetElementAbund is compared with the count-weighted abundance sum.",
          "compositions are the generator's; same lab as C01"),
